@@ -39,6 +39,8 @@ type VerifState struct {
 	LastCol     bool // deferred wrap pending
 	SavedPri    VerifCursor
 	SavedAlt    VerifCursor
+	SavedPriAWM bool // autowrap mode saved with the cursor (normal screen)
+	SavedAltAWM bool // autowrap mode saved with the cursor (alternate screen)
 	Top, Bottom int
 	Left, Right int
 	TabStops    []int
@@ -90,6 +92,8 @@ func (vt *Model) VerifSnapshot() VerifState {
 		LastCol:     vt.lastCol,
 		SavedPri:    verifCursor(vt.primaryState.cursor),
 		SavedAlt:    verifCursor(vt.altState.cursor),
+		SavedPriAWM: vt.primaryState.decawm,
+		SavedAltAWM: vt.altState.decawm,
 		Top:         int(vt.margin.top),
 		Bottom:      int(vt.margin.bottom),
 		Left:        int(vt.margin.left),
